@@ -130,8 +130,10 @@ func (s *session) recover() (err error) {
 	defer func() {
 		if os.IsNotExist(err) {
 			// Don't return os.ErrNotExist if the underlying storage contains
-			// other files that belong to LevelDB. So the DB won't get trashed.
-			if fds, _ := s.stor.List(storage.TypeAll); len(fds) > 0 {
+			// data files that belong to LevelDB. So the DB won't get trashed.
+			// A manifest alone holds no data: it is what a crash during the
+			// creation of a new DB leaves behind.
+			if fds, _ := s.stor.List(storage.TypeJournal | storage.TypeTable); len(fds) > 0 {
 				err = &errors.ErrCorrupted{Err: errors.New("database entry point either missing or corrupted")}
 			}
 		}
